@@ -591,8 +591,11 @@ func genScript(r *lib.Rng, prefix string) []Ev {
 			case x < 7:
 				i := r.Intn(len(ids))
 				k := "leave"
-				if r.Chance(1, 3) {
+				switch r.Intn(4) {
+				case 0:
 					k = "abort" // the peer fails in the middle of a frame instead of closing
+				case 1:
+					k = "bye" // the peer sends a close frame with a status code and a reason text first
 				}
 				script = append(script, Ev{K: k, ID: ids[i]})
 				ids = append(ids[:i], ids[i+1:]...)
@@ -626,9 +629,13 @@ func (w *world) runScript(prefix string, script []Ev, bid string) {
 			} else {
 				w.count("hist:refused-join")
 			}
-		case "leave", "abort":
+		case "leave", "abort", "bye":
 			for i, l := range live {
 				if l.id == e.ID {
+					if e.K == "bye" {
+						l.conn.WriteControl(websocket.CloseMessage, websocket.FormatCloseMessage(websocket.CloseNormalClosure, "bye \u2028 \"done\""), time.Now().Add(time.Second))
+						w.count("hist:close-frame-with-reason")
+					}
 					if e.K == "abort" {
 						// announce a 4096-byte binary frame, send ten bytes of it, drop the TCP connection
 						if u := l.conn.UnderlyingConn(); u != nil {
